@@ -14,6 +14,11 @@ HARNESSES = [
      'rungs': {'quick': [{'defines': ['KMAX=3', 'KMAXA=1', 'HMAX=7'], 'bound': 'one side 0..1 keystones, the other 0..3 (both role orders are compared), heights 0..7 or none, ' + TB, 'timeout': 200}],
                'thorough': [{'defines': ['KMAX=4', 'KMAXA=1', 'HMAX=7'], 'bound': 'one side 0..1 keystones, the other 0..4, heights 0..7 or none, ' + TB, 'timeout': 3000},
                             {'defines': ['KMAX=3', 'KMAXA=2', 'HMAX=7'], 'bound': 'one side 0..2 keystones, the other 0..3', 'timeout': 3000}]}},
+    {'name': 'h_frview', 'src': 'C03/h_frview.cpp', 'entry': 'h_frview', 'repo_srcs': TOY_SRCS, 'covers': [1, 2, 3, 4], 'jobs': 16,
+     'obligations': ['end-to-end: sign of comparePopScore on the F-TT system == reference scorer applied to publication profiles computed by an independent specification of which endorsements count (endorsed block inside the keystone window up to keystone+interval+1 and the tip, containing block on the same chain, earliest block of proof)',
+                     '0 when neither chain crosses a keystone boundary; the winner becomes the tip; honest chains activate'],
+     'rungs': {'quick': [{'defines': ['NEND=2', 'LMAX=3'], 'bound': 'two chains of 1..3 blocks forking at the bootstrap block, keystone interval 1..2, finality delay 1..4, 2 honest endorsements with symbolic containing/endorsed/block of proof on a shared SP chain', 'timeout': 280}],
+               'thorough': [{'defines': ['NEND=3', 'LMAX=4'], 'bound': 'chains of 1..4 blocks, 3 endorsements', 'timeout': 3000}, {'defines': ['NEND=2', 'LMAX=4'], 'bound': 'chains of 1..4 blocks, 2 endorsements', 'timeout': 1500}]}},
 ]
 EXPLANATION = 'The real scoring function is executed on symbolic publication profiles and compared with an independent reference on every path.'
 ASSUMPTIONS = ['the reference scorer of DESIGN.md appendix A is the protocol definition (pre-validated against the unchanged tree on 1.4 M profiles)',
